@@ -129,7 +129,10 @@ PROPS = {
     "C13": node("C13", required=["send_ok"], variants=["epidemic", "spray", "binary_spray", "prophet", "dtlsr", "sensor-mule"]),
     "C14": node("C14", required=["send_ok", "same_ms_submission"]),
     "C15": node("C15", required=["send_ok", "status_report_judged"]),
-    "C19": node("C19", variants=["prophet"], required=["send_ok", "prophet_emission_judged", "prophet_vector_imported", "prophet_ageing_tick", "prophet_forwarding_judged"]),
+    "C19": dict(node("C19", variants=["prophet"], required=["send_ok", "prophet_emission_judged", "prophet_vector_imported", "prophet_ageing_tick", "prophet_forwarding_judged", "race_window"]),
+                parts=[{"pkg": "pkg/routing", "binary": "routing.test", "harness": "node", "variants": ["prophet"] * 3},
+                       {"pkg": "pkg/routing", "binary": "routing-race.test", "harness": "node", "variants": ["prophet"], "race": True,
+                        "env": {"VERIF_RACE": "1", "GORACE": "halt_on_error=1"}, "race_filter": "Prophet|prophet"}]),
     "C20": node("C20", variants=["dtlsr"], required=["send_ok", "dtlsr_unicast_judged", "dtlsr_linkstate_accepted", "dtlsr_linkstate_stale_or_equal", "dtlsr_recompute_tick"]),
     "C18": node("C18", variants=["spray", "binary_spray"], required=["send_ok", "spray_copy_given", "binary_spray_transmission_judged"]),
 }
@@ -186,7 +189,8 @@ MANIFEST_TEXT = {
     "C19": {"text": "Seeded histories of encounters, ageing ticks on the fake clock and summary vectors from scripted peers (constants and values drawn from [0,1] incl. 0, 1, denormals); "
                     "the node's vector is read from every metadata bundle it emits: range [0,1], per-key monotonicity between emissions (no ageing => no decrease; only ageing => no increase), "
                     "and every algorithm-chosen transmission of a data bundle is checked against the peer's last advertised predictability and a reference value resynchronised at each emission. "
-                    "The 'never crashes under concurrent events' clause is only covered as far as a crash shows up as a dying worker process (no race-detector windows yet).",
+                    "Crash clause: a quarter of the workers run a race-detector build in which lone parked tasks are held and then released together (simulator-chosen concurrent windows: ageing tick, "
+                    "vector import, encounter, selection, serialisation of an outgoing vector); a reported race between PRoPHET code paths is a schedule on which Go can abort the process and is the violation.",
             "design_ref": "DESIGN.md §4 C19, App. A.5", "note": NODE_NOTE, "technique": DST},
     "C20": {"text": "Seeded link-state histories (up to 8 other nodes, directed links live or lost at past instants, reordered / duplicated / stale / equal-timestamp updates through scripted peers), "
                     "own neighbours appearing and disappearing on the fake clock, recompute/broadcast/purge ticks; the table is observed behaviourally (which scripted peer is handed a unicast probe) "
